@@ -14,7 +14,7 @@ EXPLANATION = (
     'locked); R03.c every struct field that carries the Event parameter is a FIFO channel endpoint, and an event travels from its '
     'receive to update by direct moves; R03.d no unsafe block or unsafe impl exists in the runtime crates (the type-level '
     'arguments lean on this); R03.f every run of the executor inside Core::process is followed by a look at the event channel before the call '
-    'returns, so events emitted during a call are applied by that call in emission order; the linear rule of C01 gives "exactly once"; R03.g a command reports done / ends its stream only when its event and effect queues are empty, so a host never throws away an event a task already emitted. Order between events of different tasks is not decided. R03.h both executor loops return only after finding both queues empty again once any task has run (shared with C01 R01.e).')
+    'returns, so events emitted during a call are applied by that call in emission order; the linear rule of C01 gives "exactly once"; R03.g a command reports done / ends its stream only when its event and effect queues are empty, so a host never throws away an event a task already emitted. Order between events of different tasks is not decided. R03.h both executor loops return only after finding both queues empty again once any task has run (shared with C01 R01.e). R03.i every hand-written poll function of the command runtime (stream, hosting sink, request / stream futures) that answers Pending has kept the waker of this poll or follows a delegated Pending, so a forwarded event is never parked for ever (shared with C05 R05.c).')
 
 FIFO_CARRIERS = re.compile(
     r'^(crossbeam_channel::channel::(Sender|Receiver)|crux_core::capability::channel::(Sender|Receiver)|'
@@ -211,6 +211,12 @@ def check(ctx, rep):
     rep.rule('R03.g', 'a command reports done / ends its stream only when its event and effect queues are empty, so no emitted event is dropped by its host', floor=3)
     c07.check_is_done(rep, 'R03.g', core)
     c07.check_stream_end(rep, 'R03.g', core)
+    # R03.i: an event that was emitted sits in a channel until the task that forwards it is polled again: no hand-written poll function on
+    # that path (the command stream, the sink a hosted command forwards into, the request / stream futures) may answer Pending without
+    # having kept the waker (shared with C05 R05.c)
+    from rules.props import c05
+    rep.rule('R03.i', 'every hand-written poll function of the command runtime that returns Pending has kept the waker or follows a delegated Pending', floor=9)
+    c05.check_pending_wakers(rep, 'R03.i', core, None, only=lambda f: '::command::' in f.npath or 'capability::' in f.npath, floor=9)
     # R03.d
     for name in ['crux_core', 'crux_http', 'crux_kv', 'crux_time', 'crux_platform']:
         c = ctx.crate('default', name)
